@@ -155,7 +155,7 @@ theorem firstOccBy_sublist (eqv : Int → Int → Bool) (l : List Int) : (firstO
   | nil => simp [firstOccBy]
   | cons x xs ih =>
     simp only [firstOccBy]
-    exact List.Sublist.cons₂ x ((List.filter_sublist).trans ih)
+    exact List.Sublist.cons_cons x ((List.filter_sublist).trans ih)
 
 theorem mem_firstOcc (l : List Int) (x : Int) : x ∈ firstOcc l ↔ x ∈ l := by
   induction l with
